@@ -319,6 +319,48 @@ Json EngineGen::generate(uint64_t seed, const runner::GenOptions& opt, const Eng
   if (builds < 2) addBuild();
   if (opt.property == "C06") {
     // the compared build is the last one: make it do real work in most runs
+    if (f.invalidate && computed.size() >= 2 && rng.chance(300)) {
+      // Directed tail (seeded change C06-m5): a computed rule I gets a new value in a build aimed at I alone, so its consumers
+      // keep an older built-at epoch; in the compared build I and one or two other rules re-run (stored value declared invalid
+      // once), I to the value it already has.  Whether a consumer's dependency scan then meets I still in progress or already
+      // complete depends on the completion order alone - the outcome must not.
+      int I = computed[rng.below(computed.size())];
+      for (int tries = 0; tries < 8 && prog.rules[I].empty; tries++) I = computed[rng.below(computed.size())];
+      if (prog.rules[I].empty) I = mainTarget;   // (an empty value cannot be told from a failed build: never a target)
+      int L = leaves[rng.below(leaves.size())];
+      for (int tries = 0; tries < 8 && prog.rules.count(I) && !prog.rules[I].reqs.empty(); tries++) {
+        // prefer a leaf I really reads
+        auto& rq = prog.rules[I].reqs[rng.below(prog.rules[I].reqs.size())];
+        if (std::find(leaves.begin(), leaves.end(), rq.k) != leaves.end()) {
+          L = rq.k;
+          break;
+        }
+      }
+      std::string v = spellValue(rng, vcounter++, valStyle);
+      past[L].push_back(v);
+      hist.push(Json::obj().set("op", "set").set("k", L).set("v", util::hex(v)));
+      hist.push(Json::obj().set("op", "build").set("k", I));
+      builds++;
+      hist.push(Json::obj().set("op", "invalidate").set("k", I));
+      // the other re-running rule: preferably a computed J that some consumer R of I requests *before* I, so R's scan is parked
+      // on J while I - started on behalf of another requester - may or may not have completed
+      std::vector<int> before;
+      for (auto& e : prog.rules) {
+        bool seenI = false;
+        std::vector<int> js;
+        for (auto& rq : e.second.reqs) {
+          if (rq.k == I) {
+            seenI = true;
+            break;
+          }
+          if (rq.k != I && prog.rules.count(rq.k) && !prog.rules[rq.k].leaf) js.push_back(rq.k);
+        }
+        if (seenI) before.insert(before.end(), js.begin(), js.end());
+      }
+      if (!before.empty() && rng.chance(800)) hist.push(Json::obj().set("op", "invalidate").set("k", before[rng.below(before.size())]));
+      int more = (int)rng.range(0, 2);
+      for (int q = 0; q < more; q++) hist.push(Json::obj().set("op", "invalidate").set("k", computed[rng.below(computed.size())]));
+    }
     if (rng.chance(500)) hist.push(Json::obj().set("op", "restart"));
     else if (rng.chance(600)) hist.push(Json::obj().set("op", "set").set("k", leaves[rng.below(leaves.size())]).set("v", util::hex(spellValue(rng, vcounter++, valStyle))));
     Json op = Json::obj();
